@@ -29,6 +29,7 @@ type chanState struct {
 	sendq  []*waiter
 	recvq  []*waiter
 	tok    int // race token
+	keep   any // the real channel: pinned for the world's lifetime, so that its address (the key of World.chans) cannot be reused by a later make(chan) after the garbage collector freed it
 }
 
 type selWait struct {
@@ -38,17 +39,26 @@ type selWait struct {
 	ok    bool
 }
 
+//go:norace
 func (w *World) chanOf(ch any) *chanState {
 	v := reflect.ValueOf(ch)
 	p := v.Pointer()
-	st := w.chans[p]
-	if st == nil {
-		st = &chanState{cap: v.Cap()}
-		w.chans[p] = st
+	for i := range w.chans {
+		if w.chans[i].p == p {
+			return w.chans[i].st
+		}
 	}
+	st := &chanState{cap: v.Cap(), keep: ch}
+	w.chans = append(w.chans, chanEntry{p, st})
 	return st
 }
 
+type chanEntry struct {
+	p  uintptr
+	st *chanState
+}
+
+//go:norace
 func dropWaiter(q []*waiter, x *waiter) []*waiter {
 	for i, y := range q {
 		if y == x {
@@ -59,6 +69,8 @@ func dropWaiter(q []*waiter, x *waiter) []*waiter {
 }
 
 // liveRecv returns the first receiver in the queue whose select (if any) has not fired yet.
+//
+//go:norace
 func (st *chanState) liveRecv() *waiter {
 	for len(st.recvq) > 0 {
 		r := st.recvq[0]
@@ -71,6 +83,7 @@ func (st *chanState) liveRecv() *waiter {
 	return nil
 }
 
+//go:norace
 func (st *chanState) liveSend() *waiter {
 	for len(st.sendq) > 0 {
 		s := st.sendq[0]
@@ -83,6 +96,7 @@ func (st *chanState) liveSend() *waiter {
 	return nil
 }
 
+//go:norace
 func (st *chanState) trySend(v any) (ok bool, panicClosed bool) {
 	if st.closed {
 		return false, true
@@ -93,17 +107,16 @@ func (st *chanState) trySend(v any) (ok bool, panicClosed bool) {
 		if r.sel != nil {
 			r.sel.fired, r.sel.ix, r.sel.val, r.sel.ok = true, r.selIx, v, true
 		}
-		raceRelease(&st.tok)
 		return true, false
 	}
 	if len(st.buf) < st.cap {
 		st.buf = append(st.buf, v)
-		raceRelease(&st.tok)
 		return true, false
 	}
 	return false, false
 }
 
+//go:norace
 func (st *chanState) tryRecv() (v any, ok bool, got bool) {
 	if len(st.buf) > 0 {
 		v = st.buf[0]
@@ -117,7 +130,6 @@ func (st *chanState) tryRecv() (v any, ok bool, got bool) {
 				s.sel.fired, s.sel.ix = true, s.selIx
 			}
 		}
-		raceAcquire(&st.tok)
 		return v, true, true
 	}
 	if s := st.liveSend(); s != nil {
@@ -126,29 +138,69 @@ func (st *chanState) tryRecv() (v any, ok bool, got bool) {
 		if s.sel != nil {
 			s.sel.fired, s.sel.ix = true, s.selIx
 		}
-		raceAcquire(&st.tok)
-		raceRelease(&st.tok) // unbuffered: receive happens-before completion of the send
 		return s.val, true, true
 	}
 	if st.closed {
-		raceAcquire(&st.tok)
 		return nil, false, true
 	}
 	return nil, false, false
 }
 
+// chanTok returns the race token of a channel (nil for a nil channel or outside a world).
+//
+//go:norace
+func chanTok(ch any) *int {
+	w := W()
+	if w == nil {
+		return nil
+	}
+	if isNilChan(ch) {
+		return nil
+	}
+	return &w.chanOf(ch).tok
+}
+
+// happens-before discipline of the channel model (the detector cannot see the model):
+// every operation RELEASES (merging) the channel token before it can have any effect and
+// ACQUIRES it after it completed — send→receive, close→receive and, for unbuffered
+// channels, receive→send-completion edges all follow (slightly more than buffered channels give).
+//
+//go:norace
+func chanPre(tok *int) {
+	if tok != nil {
+		raceReleaseMerge(tok)
+	}
+}
+
+//go:norace
+func chanPost(tok *int) {
+	if tok != nil {
+		raceAcquire(tok)
+	}
+}
+
 // Send models `ch <- v`.
+//
+//go:norace
 func Send[C ~chan T | ~chan<- T, T any](ch C, v T) {
-	w := curWorld
+	w := W()
 	if w == nil {
 		reflect.ValueOf(ch).Send(reflect.ValueOf(&v).Elem())
 		return
 	}
+	tok := chanTok(ch)
+	chanPre(tok)
+	sendModel(w, ch, v)
+	chanPost(tok)
+}
+
+//go:norace
+func sendModel(w *World, ch any, v any) {
 	if w.closing {
 		return
 	}
 	if isNilChan(ch) {
-		w.Point("send:nil", false, func() bool { return false })
+		w.PointC("send:nil", false, Never)
 		return
 	}
 	st := w.chanOf(ch)
@@ -161,11 +213,12 @@ func Send[C ~chan T | ~chan<- T, T any](ch C, v T) {
 		panic("send on closed channel")
 	}
 	if ok {
+		w.epoch++
 		return
 	}
 	me := &waiter{t: w.cur, val: v}
 	st.sendq = append(st.sendq, me)
-	w.Point("send:wait", false, func() bool { return me.done || st.closed })
+	w.PointC("send:wait", false, waiterCond{me, st})
 	if w.closing {
 		return
 	}
@@ -173,14 +226,18 @@ func Send[C ~chan T | ~chan<- T, T any](ch C, v T) {
 		st.sendq = dropWaiter(st.sendq, me)
 		panic("send on closed channel")
 	}
-	raceAcquire(&st.tok)
 }
 
+//go:norace
 func isNilChan(ch any) bool { return reflect.ValueOf(ch).IsNil() }
 
+//go:norace
 func recvAny(w *World, ch any, label string) (any, bool) {
+	if w.closing {
+		return nil, false
+	}
 	if isNilChan(ch) {
-		w.Point(label+":nil", false, func() bool { return false })
+		w.PointC(label+":nil", false, Never)
 		return nil, false
 	}
 	st := w.chanOf(ch)
@@ -193,22 +250,22 @@ func recvAny(w *World, ch any, label string) (any, bool) {
 	}
 	me := &waiter{t: w.cur}
 	st.recvq = append(st.recvq, me)
-	w.Point(label+":wait", false, func() bool { return me.done || st.closed })
+	w.PointC(label+":wait", false, waiterCond{me, st})
 	if w.closing {
 		return nil, false
 	}
 	if me.done {
-		raceAcquire(&st.tok)
 		return me.val, me.ok
 	}
 	st.recvq = dropWaiter(st.recvq, me)
-	raceAcquire(&st.tok)
 	return nil, false
 }
 
 // Recv2 models `v, ok := <-ch`.
+//
+//go:norace
 func Recv2[C ~chan T | ~<-chan T, T any](ch C) (T, bool) {
-	w := curWorld
+	w := W()
 	var zero T
 	if w == nil {
 		v, ok := reflect.ValueOf(ch).Recv()
@@ -217,10 +274,10 @@ func Recv2[C ~chan T | ~<-chan T, T any](ch C) (T, bool) {
 		}
 		return v.Interface().(T), true
 	}
-	if w.closing {
-		return zero, false
-	}
+	tok := chanTok(ch)
+	chanPre(tok)
 	v, ok := recvAny(w, ch, "recv")
+	chanPost(tok)
 	if !ok || v == nil {
 		return zero, ok
 	}
@@ -228,18 +285,29 @@ func Recv2[C ~chan T | ~<-chan T, T any](ch C) (T, bool) {
 }
 
 // Recv models `<-ch`.
+//
+//go:norace
 func Recv[C ~chan T | ~<-chan T, T any](ch C) T {
 	v, _ := Recv2[C, T](ch)
 	return v
 }
 
 // Close models close(ch).
+//
+//go:norace
 func Close[C ~chan T | ~chan<- T, T any](ch C) {
-	w := curWorld
+	w := W()
 	if w == nil {
 		reflect.ValueOf(ch).Close()
 		return
 	}
+	tok := chanTok(ch)
+	chanPre(tok)
+	closeModel(w, ch)
+}
+
+//go:norace
+func closeModel(w *World, ch any) {
 	if w.closing {
 		return
 	}
@@ -255,13 +323,13 @@ func Close[C ~chan T | ~chan<- T, T any](ch C) {
 		panic("close of closed channel")
 	}
 	st.closed = true
-	w.Bump()
-	raceRelease(&st.tok)
+	w.epoch++
 }
 
 // ---- select -----------------------------------------------------------------
 
 type SelCase interface {
+	token() *int
 	ready(w *World) bool
 	fire(w *World)
 	enqueue(w *World, sw *selWait, ix int)
@@ -276,8 +344,16 @@ type RecvCase[T any] struct {
 	me  *waiter
 }
 
+//go:norace
 func NewRecvCase[C ~chan T | ~<-chan T, T any](ch C) *RecvCase[T] { return &RecvCase[T]{ch: ch} }
-func (c *RecvCase[T]) Value() (T, bool)                          { return c.val, c.ok }
+
+//go:norace
+func (c *RecvCase[T]) Value() (T, bool) { return c.val, c.ok }
+
+//go:norace
+func (c *RecvCase[T]) token() *int { return chanTok(c.ch) }
+
+//go:norace
 func (c *RecvCase[T]) ready(w *World) bool {
 	if isNilChan(c.ch) {
 		return false
@@ -285,6 +361,8 @@ func (c *RecvCase[T]) ready(w *World) bool {
 	st := w.chanOf(c.ch)
 	return len(st.buf) > 0 || st.liveSend() != nil || st.closed
 }
+
+//go:norace
 func (c *RecvCase[T]) fire(w *World) {
 	v, ok, _ := w.chanOf(c.ch).tryRecv()
 	c.ok = ok
@@ -292,6 +370,8 @@ func (c *RecvCase[T]) fire(w *World) {
 		c.val = v.(T)
 	}
 }
+
+//go:norace
 func (c *RecvCase[T]) enqueue(w *World, sw *selWait, ix int) {
 	if isNilChan(c.ch) {
 		return
@@ -300,12 +380,16 @@ func (c *RecvCase[T]) enqueue(w *World, sw *selWait, ix int) {
 	c.me = &waiter{t: w.cur, sel: sw, selIx: ix}
 	st.recvq = append(st.recvq, c.me)
 }
+
+//go:norace
 func (c *RecvCase[T]) dequeue(w *World) {
 	if c.me != nil {
 		st := w.chanOf(c.ch)
 		st.recvq = dropWaiter(st.recvq, c.me)
 	}
 }
+
+//go:norace
 func (c *RecvCase[T]) deliver(sw *selWait) {
 	c.ok = sw.ok
 	if sw.val != nil {
@@ -319,9 +403,15 @@ type SendCase[T any] struct {
 	me  *waiter
 }
 
+//go:norace
 func NewSendCase[C ~chan T | ~chan<- T, T any](ch C, v T) *SendCase[T] {
 	return &SendCase[T]{ch: ch, val: v}
 }
+
+//go:norace
+func (c *SendCase[T]) token() *int { return chanTok(c.ch) }
+
+//go:norace
 func (c *SendCase[T]) ready(w *World) bool {
 	if isNilChan(c.ch) {
 		return false
@@ -329,12 +419,16 @@ func (c *SendCase[T]) ready(w *World) bool {
 	st := w.chanOf(c.ch)
 	return st.closed || st.liveRecv() != nil || len(st.buf) < st.cap
 }
+
+//go:norace
 func (c *SendCase[T]) fire(w *World) {
 	_, pc := w.chanOf(c.ch).trySend(c.val)
 	if pc {
 		panic("send on closed channel")
 	}
 }
+
+//go:norace
 func (c *SendCase[T]) enqueue(w *World, sw *selWait, ix int) {
 	if isNilChan(c.ch) {
 		return
@@ -343,20 +437,38 @@ func (c *SendCase[T]) enqueue(w *World, sw *selWait, ix int) {
 	c.me = &waiter{t: w.cur, val: c.val, sel: sw, selIx: ix}
 	st.sendq = append(st.sendq, c.me)
 }
+
+//go:norace
 func (c *SendCase[T]) dequeue(w *World) {
 	if c.me != nil {
 		st := w.chanOf(c.ch)
 		st.sendq = dropWaiter(st.sendq, c.me)
 	}
 }
+
+//go:norace
 func (c *SendCase[T]) deliver(sw *selWait) {}
 
 // Select models a select statement. Returns the index of the chosen case, or -1 for default.
+//
+//go:norace
 func Select(hasDefault bool, cases ...SelCase) int {
-	w := curWorld
+	w := W()
 	if w == nil {
 		panic("vrt.Select in pass-through mode is not supported")
 	}
+	for _, c := range cases {
+		chanPre(c.token())
+	}
+	i := selectModel(w, hasDefault, cases)
+	if i >= 0 {
+		chanPost(cases[i].token())
+	}
+	return i
+}
+
+//go:norace
+func selectModel(w *World, hasDefault bool, cases []SelCase) int {
 	if w.closing {
 		// teardown: behave as if every channel were closed
 		if len(cases) > 0 {
@@ -392,17 +504,7 @@ func Select(hasDefault bool, cases ...SelCase) int {
 	for i, c := range cases {
 		c.enqueue(w, sw, i)
 	}
-	w.Point("select:wait", false, func() bool {
-		if sw.fired {
-			return true
-		}
-		for _, c := range cases {
-			if c.ready(w) {
-				return true
-			}
-		}
-		return false
-	})
+	w.PointC("select:wait", false, selCond{w, sw, cases})
 	if w.closing {
 		for _, c := range cases {
 			c.dequeue(w)
@@ -436,8 +538,10 @@ func Select(hasDefault bool, cases ...SelCase) int {
 // Sleep models time.Sleep inside a polling loop: the sleeper is disabled until
 // something really changed (World.Bump) or time advances because nothing else
 // can run — re-polling an unchanged world would only repeat the same step.
+//
+//go:norace
 func Sleep(d time.Duration) {
-	w := curWorld
+	w := W()
 	if w == nil {
 		time.Sleep(d)
 		return
@@ -449,7 +553,7 @@ func Sleep(d time.Duration) {
 	t.sleeps++
 	t.asleep, t.timeWake = true, false
 	ep := w.epoch
-	w.Point("sleep", false, func() bool { return w.epoch != ep || t.timeWake })
+	w.PointC("sleep", false, sleepCond{w, t, ep})
 	t.asleep = false
 }
 
@@ -459,10 +563,13 @@ type Ticker struct {
 	stopped bool
 }
 
+//go:norace
 func NewTicker(d time.Duration) *Ticker {
 	t := &Ticker{C: make(chan time.Time, 1)}
-	if w := curWorld; w != nil {
+	if w := W(); w != nil {
+		raceDisable()
 		w.tickers = append(w.tickers, t)
+		raceEnable()
 		return t
 	}
 	// pass-through: a real ticker feeding C
@@ -482,10 +589,19 @@ func NewTicker(d time.Duration) *Ticker {
 	return t
 }
 
-func (t *Ticker) Stop()                 { t.stopped = true }
+//go:norace
+func (t *Ticker) Stop() {
+	raceDisable()
+	t.stopped = true
+	raceEnable()
+}
+
+//go:norace
 func (t *Ticker) Reset(d time.Duration) {}
 
 // Tickers lists the live tickers of the world.
+//
+//go:norace
 func (w *World) Tickers() []*Ticker {
 	var out []*Ticker
 	for _, t := range w.tickers {
@@ -497,19 +613,24 @@ func (w *World) Tickers() []*Ticker {
 }
 
 // Tick delivers one tick to ticker i (dropped when its buffer is full, like a real ticker).
+//
+//go:norace
 func (w *World) Tick(t *Ticker) bool {
+	chanPre(chanTok(t.C))
 	if t.stopped || w.closing {
 		return false
 	}
 	st := w.chanOf(t.C)
 	ok, _ := st.trySend(time.Time{})
 	if ok {
-		w.Bump()
+		w.epoch++
 	}
 	return ok
 }
 
 // TickerWaiters reports how many threads are blocked receiving from live tickers.
+//
+//go:norace
 func (w *World) TickerWaiters() int {
 	n := 0
 	for _, t := range w.tickers {
@@ -521,6 +642,8 @@ func (w *World) TickerWaiters() int {
 }
 
 // MarkAsleepOnTickers marks threads blocked on a ticker receive as asleep (quiescent, not deadlocked).
+//
+//go:norace
 func (w *World) tickerBlocked(t *Thread) bool {
 	for _, tk := range w.tickers {
 		for _, r := range w.chanOf(tk.C).recvq {
@@ -535,6 +658,8 @@ func (w *World) tickerBlocked(t *Thread) bool {
 // ---- deterministic map iteration ---------------------------------------------------
 
 // SortedKeys returns the keys of m in a deterministic order (reversed when World.MapRev).
+//
+//go:norace
 func SortedKeys[M ~map[K]V, K comparable, V any](m M) []K {
 	keys := make([]K, 0, len(m))
 	for k := range m {
@@ -547,7 +672,8 @@ func SortedKeys[M ~map[K]V, K comparable, V any](m M) []K {
 	for _, k := range keys {
 		strs[k] = keyString(k)
 	}
-	rev := curWorld != nil && curWorld.MapRev
+	w := W()
+	rev := w != nil && w.MapRev
 	sort.Slice(keys, func(i, j int) bool {
 		if rev {
 			return strs[keys[i]] > strs[keys[j]]
@@ -557,6 +683,7 @@ func SortedKeys[M ~map[K]V, K comparable, V any](m M) []K {
 	return keys
 }
 
+//go:norace
 func keyString(k any) string {
 	switch v := k.(type) {
 	case string:
@@ -589,6 +716,7 @@ func keyString(k any) string {
 	return fmt.Sprintf("%v", k)
 }
 
+//go:norace
 func fieldIface(f reflect.Value) any {
 	if f.CanInterface() {
 		return f.Interface()
@@ -598,3 +726,39 @@ func fieldIface(f reflect.Value) any {
 	}
 	return f.String()
 }
+
+type waiterCond struct {
+	me *waiter
+	st *chanState
+}
+
+//go:norace
+func (c waiterCond) Ready() bool { return c.me.done || c.st.closed }
+
+type selCond struct {
+	w     *World
+	sw    *selWait
+	cases []SelCase
+}
+
+//go:norace
+func (c selCond) Ready() bool {
+	if c.sw.fired {
+		return true
+	}
+	for _, x := range c.cases {
+		if x.ready(c.w) {
+			return true
+		}
+	}
+	return false
+}
+
+type sleepCond struct {
+	w  *World
+	t  *Thread
+	ep int
+}
+
+//go:norace
+func (c sleepCond) Ready() bool { return c.w.epoch != c.ep || c.t.timeWake }
